@@ -52,6 +52,8 @@ ZOO_FIXED = [
     "{1, 2}", "{'b', 'a', 'c'}", "frozenset({1})", "set()", "[(1, 'a'), (2, 'b')]", "{'k': (1,)}",
     "[1.5, -2, 'x', None, True]", "{'a': {'b': {'c': {'d': [1, 2, {'e': ()}]}}}}",
     "list(range(40))", "{str(i): i for i in range(12)}", "['word %d' % i for i in range(15)]",
+    # leaves that are equal but are written differently (a value-keyed memo of generated tokens would conflate them)
+    "[0.0, -0.0]", "[-0.0, 0.0, 0]", "[1, True, 1.0]", "{'a': 1.0, 'b': 1, 'c': True}", "[(0.0,), (-0.0,)]",
 ]
 
 ZOO_HASH = [
